@@ -330,6 +330,12 @@ func (c *Ctx) Callees(cc *ssa.CallCommon) []*ssa.Function {
 		}
 		return out
 	}
+	// a function-typed parameter of an unexported function: what its call sites in the module pass
+	if p, ok := cc.Value.(*ssa.Parameter); ok {
+		if fs := c.funcArgsOf(p); len(fs) > 0 {
+			return fs
+		}
+	}
 	// local function variables (closures assigned once to a local, possibly captured)
 	if f := resolveFuncVar(cc.Value, 0); f != nil {
 		return []*ssa.Function{f}
@@ -343,6 +349,67 @@ func (c *Ctx) Callees(cc *ssa.CallCommon) []*ssa.Function {
 		}
 	}
 	return nil
+}
+
+// funcArgsOf: p is a function-typed parameter of an unexported module function that is only ever called statically;
+// returns the functions its call sites pass for p (nil when one of them passes something that is not a known function).
+func (c *Ctx) funcArgsOf(p *ssa.Parameter) []*ssa.Function {
+	f := p.Parent()
+	if _, isSig := p.Type().Underlying().(*types.Signature); !isSig || f == nil || f.Object() == nil || f.Object().Exported() || !inModule(f) {
+		return nil
+	}
+	if c.faMemo == nil {
+		c.faMemo = map[*ssa.Parameter][]*ssa.Function{}
+	}
+	if out, ok := c.faMemo[p]; ok {
+		return out
+	}
+	idx := paramIndex(p)
+	var out []*ssa.Function
+	seen := map[*ssa.Function]bool{}
+	bad := false
+	for _, g := range c.Funcs {
+		forEachInstr(g, func(in ssa.Instruction) {
+			ci, ok := in.(ssa.CallInstruction)
+			if !ok {
+				for _, op := range in.Operands(nil) {
+					if *op == ssa.Value(f) {
+						bad = true // used as a value: other callers are possible
+					}
+				}
+				return
+			}
+			cm := ci.Common()
+			for _, a := range cm.Args {
+				if a == ssa.Value(f) {
+					bad = true
+				}
+			}
+			if cm.StaticCallee() != f || idx >= len(cm.Args) {
+				return
+			}
+			var h *ssa.Function
+			switch x := stripConv(cm.Args[idx]).(type) {
+			case *ssa.Function:
+				h = x
+			case *ssa.MakeClosure:
+				h, _ = x.Fn.(*ssa.Function)
+			}
+			if h == nil {
+				bad = true
+				return
+			}
+			if !seen[h] {
+				seen[h] = true
+				out = append(out, h)
+			}
+		})
+	}
+	if bad {
+		out = nil
+	}
+	c.faMemo[p] = out
+	return out
 }
 
 // valuesOfFuncType: the functions returned as the named function type nt anywhere in the module.
